@@ -255,7 +255,7 @@ def run(ctx, replay):
             names = sorted({p for p, _ in rest})
             for p in names:
                 preds[p] = preds.get(p, 0) + 1
-            what = "content sent although the policy clause(s) %s do not hold (message(s) %s of the history)" % (
+            what = "outbound security clause(s) %s violated (message(s) %s of the history)" % (
                 ",".join(names), ",".join(str(m) for m in sorted({m for _, m in rest})))
             ctx.violation(what, {"property": "C05", "behaviour": by_id[t], "trace": by_t[t],
                                  "violated": sorted(list(x) for x in rest),
